@@ -625,41 +625,8 @@ func ruleRootLink(id string) func(*Checker) {
 					if fi == nil {
 						continue
 					}
-					// mode&ModeSymlink test
-					tE, fE := condEdges(fn, func(v ssa.Value) bool {
-						bo, ok := v.(*ssa.BinOp)
-						if !ok || (bo.Op != token.NEQ && bo.Op != token.EQL) {
-							return false
-						}
-						and, ok := bo.X.(*ssa.BinOp)
-						if !ok || and.Op != token.AND {
-							return false
-						}
-						dep := false
-						for w := range p.backSlice(and, 0) {
-							if w == fi {
-								dep = true
-							}
-						}
-						return dep
-					})
-					var notLink []Edge
-					for _, e := range tE {
-						if ifi, ok := e.From.Instrs[len(e.From.Instrs)-1].(*ssa.If); ok {
-							cnd, neg := stripNot(ifi.Cond)
-							if bo, ok := cnd.(*ssa.BinOp); ok && (bo.Op == token.EQL) != neg {
-								notLink = append(notLink, e)
-							}
-						}
-					}
-					for _, e := range fE {
-						if ifi, ok := e.From.Instrs[len(e.From.Instrs)-1].(*ssa.If); ok {
-							cnd, neg := stripNot(ifi.Cond)
-							if bo, ok := cnd.(*ssa.BinOp); ok && (bo.Op == token.NEQ) != neg {
-								notLink = append(notLink, e)
-							}
-						}
-					}
+					// the symlink test on that FileInfo, in any of its spellings
+					_, notLink := symlinkEdges(fn, fi)
 					if len(notLink) == 0 {
 						continue
 					}
